@@ -1374,3 +1374,676 @@ Proof.
     as (f' & Hin & Hr').
   cbn [fst] in *. eapply reports_child_vol; eauto.
 Qed.
+
+(* ---- E.4 the three file theorems, for a file directly inside a parsed volume ---- *)
+
+Section FileInVolume.
+Variables (nvar : bytes -> option bytes) (rs : Z -> bytes -> Z -> outcome (node * Z)).
+Variables (pol : Z) (b b' : bytes) (fvoff : Z) (res : bool).
+Variables (h : volhdr) (buf : bytes) (kids : list node) (pol' : Z).
+Variables (k : nat) (fh : filehdr) (fb : bytes) (fk : list node) (o : Z).
+Hypothesis HP : fv_body (file_body nvar rs) pol b fvoff res = Ok (NVol h buf kids, pol').
+Hypothesis HV : validate (NVol h buf kids) = Ok [].
+Hypothesis Hok : bytes_ok b = true.
+Hypothesis Hext : fv_hdr_extent b <= v_dataoff h.
+Hypothesis Hat : file_at (v_dataoff h) kids k = Some (NFile fh fb fk, o).
+
+(* the file's own parse and the geometry *)
+Lemma file_in_volume_facts :
+  validate_file fh fb = Ok [] /\ 0 <= o /\ o + f_ext fh <= v_length h /\ v_length h <= zlen b /\
+  exists polk polk',
+    file_body nvar rs polk (sub o (v_length h - o) b) = Ok (Some (NFile fh fb fk), polk').
+Proof.
+  destruct (clean_volume_facts _ _ _ _ _ _ _ _ _ _ HP HV)
+    as (blocks & pol1 & fs & Eh & Eb & HB & HPol & L1 & V2 & Hcl & Hk).
+  assert (Hne : kids <> []) by (intros E; rewrite E in Hat; discriminate).
+  destruct (Hk Hne) as [Hs HL].
+  assert (Hpos : forall g, In g kids -> 0 <= file_ext g).
+  { intros g Hg. rewrite Forall_forall in Hcl. pose proof (file_clean_ext g (Hcl g Hg)). lia. }
+  pose proof (file_at_ge kids _ _ _ _ Hpos Hat) as Hge.
+  rewrite Eh in Hext, Hat, Hge |- *. cbn [fv_hdr v_dataoff v_length] in *.
+  assert (Hd0 : 0 <= fv_doff b).
+  { assert (0 <= rd 48 2 b) by (apply rd_nonneg; exact Hok). unfold fv_hdr_extent in Hext. lia. }
+  destruct (files_loop_at _ _ _ _ _ _ _ _ _ _ _ _ HL Hpos Hat) as (polk & polk' & HF & Ho).
+  assert (Hin : In (NFile fh fb fk) kids).
+  { clear - Hat. revert Hat. generalize (fv_doff b) as off. revert k.
+    induction kids as [|g l IH]; intros k off; cbn [file_at]; [discriminate|].
+    destruct k; [intros [= -> _]; left; reflexivity|intros H; right; eapply IH; exact H]. }
+  rewrite Forall_forall in Hcl. pose proof (Hcl _ Hin) as Hc. cbn [file_clean] in Hc.
+  split; [exact Hc|]. split; [lia|].
+  destruct (file_body_inv _ _ _ _ _ HF) as (_ & [[_ K]|(_ & _ & Lext & nv & kk & pp & K)]); [discriminate|].
+  injection K as -> -> -> ->. cbn [file_hdr_of file_hdr_gen f_ext] in *.
+  rewrite zlen_sub_tail in Lext by lia.
+  split; [lia|]. split; [lia|]. eauto.
+Qed.
+
+(* C09_file_header_detects *)
+Lemma file_header_detects j :
+  prot_hdr (attr_large (f_attr fh)) j -> single_change b (o + j) b' ->
+  ~ becomes_free_marker (sub o (v_length h - o) b') ->
+  forall r, fv_body (file_body nvar rs) pol b' fvoff res = Ok r -> reports (fst r).
+Proof.
+  intros Hj HS Hfm.
+  destruct file_in_volume_facts as (Hc & Ho0 & Hoe & Hlen & polk & polk' & HF).
+  assert (J : 0 <= j < f_ext fh).
+  { apply validate_file_clean in Hc. destruct Hc as (C1 & C2 & _). unfold file_hs in C1.
+    destruct Hj as [?|[?|[E ?]]]; [destruct (attr_large _); lia|destruct (attr_large _); lia|].
+    rewrite E in C1. lia. }
+  eapply (fv_file_detect _ _ _ _ _ _ _ _ _ _ _ _ _ _ (o + j) HP HV Hok Hext Hat HS); [lia|].
+  intros pol2 r HF'.
+  eapply (file_header_detects_local _ _ _ _ _ _ _ _ j _ _ _ _ HF Hc); [|exact Hj|exact Hfm|exact HF'].
+  replace j with (o + j - o) at 1 by lia. apply single_change_sub; [exact HS|lia|lia].
+Qed.
+
+(* C09_body_detects *)
+Lemma file_body_detects j :
+  attr_checksum (f_attr fh) = true -> file_hs fh <= j < f_ext fh -> single_change b (o + j) b' ->
+  forall r, fv_body (file_body nvar rs) pol b' fvoff res = Ok r -> reports (fst r).
+Proof.
+  intros Hck Hj HS.
+  destruct file_in_volume_facts as (Hc & Ho0 & Hoe & Hlen & polk & polk' & HF).
+  assert (J : 0 <= j) by (unfold file_hs in Hj; destruct (attr_large _); lia).
+  eapply (fv_file_detect _ _ _ _ _ _ _ _ _ _ _ _ _ _ (o + j) HP HV Hok Hext Hat HS); [lia|].
+  intros pol2 r HF'.
+  eapply (file_body_detects_local _ _ _ _ _ _ _ _ j _ _ _ _ HF Hc Hck); [|exact Hj|exact HF'].
+  replace j with (o + j - o) at 1 by lia. apply single_change_sub; [exact HS|lia|lia].
+Qed.
+
+(* C09_bodysum_detects *)
+Lemma file_bodysum_detects :
+  single_change b (o + 17) b' ->
+  forall r, fv_body (file_body nvar rs) pol b' fvoff res = Ok r -> reports (fst r).
+Proof.
+  intros HS.
+  destruct file_in_volume_facts as (Hc & Ho0 & Hoe & Hlen & polk & polk' & HF).
+  assert (J : 24 <= f_ext fh).
+  { apply validate_file_clean in Hc. destruct Hc as (C1 & C2 & _). unfold file_hs in C1.
+    destruct (attr_large _); lia. }
+  eapply (fv_file_detect _ _ _ _ _ _ _ _ _ _ _ _ _ _ (o + 17) HP HV Hok Hext Hat HS); [lia|].
+  intros pol2 r HF'.
+  eapply (file_bodysum_detects_local _ _ _ _ _ _ _ _ _ _ _ _ HF Hc); [| |exact HF'].
+  - apply bytes_ok_sub. exact Hok.
+  - replace 17 with (o + 17 - o) at 1 by lia. apply single_change_sub; [exact HS|lia|lia].
+Qed.
+
+End FileInVolume.
+
+(* ================= Part F: no false alarm on what the assembler builds ================= *)
+
+(* ---- F.1 files: ChecksumAndAssemble after SetSize ---- *)
+
+Lemma hdr_sum_fix A c0 f0 st f :
+  ((A + ((c0 - (((A + c0 + f0 + st) mod 256 - f0 - st) mod 256)) mod 256) + f + st) mod 256 - f - st)
+    mod 256 = 0.
+Proof. Z.div_mod_to_equations; lia. Qed.
+
+Lemma land_1_cases a : Z.land a 1 = 0 \/ Z.land a 1 = 1.
+Proof.
+  pose proof (Z.land_ones a 1 ltac:(lia)) as H.
+  change (Z.ones 1) with 1 in H. change (2 ^ 1) with 2 in H. rewrite H.
+  pose proof (Z.mod_pos_bound a 2 ltac:(lia)). lia.
+Qed.
+
+Lemma attr_large_set a : attr_large (set_large a true) = true.
+Proof.
+  unfold attr_large, set_large. rewrite Z.land_lor_distr_l. change (Z.land 1 1) with 1.
+  destruct (land_1_cases a) as [-> | ->]; reflexivity.
+Qed.
+
+Lemma attr_large_clear a : attr_large (set_large a false) = false.
+Proof.
+  unfold attr_large, set_large. rewrite <- Z.land_assoc. change (Z.land 254 1) with 0.
+  rewrite Z.land_0_r. reflexivity.
+Qed.
+
+Lemma zlen_le_enc3 v : zlen (le_enc 3 v) = 3. Proof. exact (zlen_le_enc 3 v). Qed.
+
+(* the converse of [validate_file_clean], for a buffer split into header and body *)
+Lemma validate_file_intro h hdr data :
+  zlen hdr = file_hs h -> f_ext h = zlen hdr + zlen data ->
+  (f_size3 h = 16777215 <-> attr_large (f_attr h) = true) ->
+  (f_size3 h <> 16777215 -> f_size3 h = f_ext h) ->
+  (sum8 hdr - f_ckf h - f_state h) mod 256 = 0 ->
+  (attr_checksum (f_attr h) = false -> f_ckf h = 170) ->
+  (attr_checksum (f_attr h) = true -> (sum8 data + f_ckf h) mod 256 = 0) ->
+  validate_file h (hdr ++ data) = Ok [].
+Proof.
+  intros Hh He H3 H3' Hs Hk Hb. pose proof (zlen_nonneg data) as Nd.
+  unfold file_hs in Hh.
+  assert (LN : zlen (hdr ++ data) = f_ext h) by (rewrite zlen_app; lia).
+  assert (SB : sub 0 (if attr_large (f_attr h) then 32 else 24) (hdr ++ data) = hdr)
+    by (apply sub_app_here; exact Hh).
+  assert (HS : 24 <= zlen hdr <= 32) by (destruct (attr_large (f_attr h)); lia).
+  unfold validate_file, validate_file_gen. unfold_c09. cbv zeta. rewrite !LN.
+  replace (f_ext h <? 24) with false by lia.
+  rewrite checksum_header_total by (rewrite LN; lia). rewrite SB, Hs. cbn [bind].
+  change (0 =? 0) with true. cbv iota. rewrite Z.eqb_refl. cbn [negb].
+  assert (BD : slice (if attr_large (f_attr h) then 32 else 24) (f_ext h) (hdr ++ data) = Some data).
+  { rewrite slice_ok by (try rewrite LN; lia). f_equal. rewrite <- Hh.
+    rewrite (sub_app_skip hdr data (zlen hdr) _ (zlen hdr)) by lia.
+    rewrite Z.sub_diag. apply sub_here_exact. lia. }
+  destruct (f_size3 h =? 16777215) eqn:E3.
+  - assert (L : attr_large (f_attr h) = true) by (apply H3; lia). rewrite L in *.
+    replace (f_ext h <? 32) with false by lia. cbn [negb].
+    destruct (attr_checksum (f_attr h)) eqn:Ec; cbn [negb andb].
+    + rewrite BD. cbn [of_opt bind app]. rewrite (Hb eq_refl). reflexivity.
+    + rewrite (Hk eq_refl). reflexivity.
+  - assert (L : attr_large (f_attr h) = false).
+    { destruct (attr_large (f_attr h)) eqn:L; [|reflexivity]. exfalso.
+      assert (f_size3 h = 16777215) by (apply H3; reflexivity). lia. }
+    rewrite L in *. rewrite (H3' ltac:(lia)). rewrite Z.eqb_refl. cbn [negb].
+    destruct (attr_checksum (f_attr h)) eqn:Ec; cbn [negb andb].
+    + rewrite BD. cbn [of_opt bind app]. rewrite (Hb eq_refl). reflexivity.
+    + rewrite (Hk eq_refl). reflexivity.
+Qed.
+
+(* C09_no_false_alarm, files: what SetSize + ChecksumAndAssemble build validates clean *)
+Lemma no_false_alarm_file h data ext attr :
+  set_size (f_attr h) (24 + zlen data) true = (ext, attr) ->
+  zlen (f_guid h) = 16 ->
+  validate_file (fst (checksum_and_assemble h ext attr data))
+                (snd (checksum_and_assemble h ext attr data)) = Ok [].
+Proof.
+  intros Hss Hg. pose proof (zlen_nonneg data) as Nd.
+  unfold set_size in Hss.
+  assert (HL : attr_large attr = (16777215 <=? 24 + zlen data) /\
+               ext = (if 16777215 <=? 24 + zlen data then 24 + zlen data + 8 else 24 + zlen data)).
+  { destruct (16777215 <=? 24 + zlen data); apply pair_equal_spec in Hss; destruct Hss as [<- <-].
+    - rewrite attr_large_set. auto.
+    - rewrite attr_large_clear. auto. }
+  destruct HL as [HL He]. clear Hss.
+  unfold checksum_and_assemble. cbv zeta. cbn [fst snd].
+  unfold file_header_bytes. rewrite HL.
+  set (ckf := if attr_checksum attr then (0 - sum8 data) mod 256 else 170).
+  set (g := f_guid h) in *. set (c0 := f_ckh h). set (f0 := f_ckf h). set (ty := f_type h).
+  set (st := f_state h). set (s3 := le_enc 3 (write3 ext)).
+  set (G := sum_list g). set (S3 := sum_list s3).
+  assert (L3 : zlen s3 = 3) by apply zlen_le_enc3.
+  assert (CK : (attr_checksum attr = false -> ckf = 170) /\
+               (attr_checksum attr = true -> (sum8 data + ckf) mod 256 = 0)).
+  { subst ckf. destruct (attr_checksum attr); split; intros; try discriminate; auto. apply sum8_fix. }
+  destruct CK as [CK1 CK2].
+  destruct (16777215 <=? 24 + zlen data) eqn:EB.
+  - (* large *)
+    set (e8 := le_enc 8 ext). set (E8 := sum_list e8).
+    assert (L8 : zlen e8 = 8) by apply le8.
+    assert (F1 : zfirstn 32 (g ++ [c0; f0; ty; attr] ++ s3 ++ [st] ++ e8) = g ++ [c0; f0; ty; attr] ++ s3 ++ [st] ++ e8).
+    { unfold zfirstn. apply firstn_all2. unfold zlen in *. rewrite !app_length. cbn [length]. lia. }
+    rewrite F1.
+    assert (S1 : sum8 (g ++ [c0; f0; ty; attr] ++ s3 ++ [st] ++ e8) = (G + ty + attr + S3 + E8 + c0 + f0 + st) mod 256).
+    { unfold sum8. rewrite !sum_list_app. cbn [sum_list fold_right]. f_equal. fold G S3 E8. lia. }
+    rewrite S1.
+    set (ckh := (c0 - ((G + ty + attr + S3 + E8 + c0 + f0 + st) mod 256 - f0 - st) mod 256) mod 256).
+    assert (W3 : write3 ext = 16777215) by (unfold write3; replace (16777215 <=? ext) with true by lia; reflexivity).
+    apply validate_file_intro; unfold file_hs; cbn [f_size3 f_ext f_attr f_ckf f_state]; rewrite ?HL, ?W3; auto.
+    + rewrite !zlen_app. rewrite Hg, L3, L8. reflexivity.
+    + rewrite !zlen_app. rewrite Hg, L3, L8. change (zlen [ckh; ckf; ty; attr]) with 4. change (zlen [st]) with 1. lia.
+    + split; auto.
+    + intros E; congruence.
+    + assert (S2 : sum8 (g ++ [ckh; ckf; ty; attr] ++ s3 ++ [st] ++ e8) = (G + ty + attr + S3 + E8 + ckh + ckf + st) mod 256).
+      { unfold sum8. rewrite !sum_list_app. cbn [sum_list fold_right]. f_equal. fold G S3 E8. lia. }
+      rewrite S2. subst ckh. apply hdr_sum_fix.
+  - (* small *)
+    assert (F1 : zfirstn 24 (g ++ [c0; f0; ty; attr] ++ s3 ++ [st] ++ le_enc 8 ext) = g ++ [c0; f0; ty; attr] ++ s3 ++ [st]).
+    { replace (g ++ [c0; f0; ty; attr] ++ s3 ++ [st] ++ le_enc 8 ext)
+        with ((g ++ [c0; f0; ty; attr] ++ s3 ++ [st]) ++ le_enc 8 ext) by (rewrite <- !app_assoc; reflexivity).
+      assert (L : zlen (g ++ [c0; f0; ty; attr] ++ s3 ++ [st]) = 24).
+      { rewrite !zlen_app. rewrite Hg, L3. reflexivity. }
+      rewrite <- L. apply zfirstn_app_exact. }
+    rewrite F1.
+    assert (S1 : sum8 (g ++ [c0; f0; ty; attr] ++ s3 ++ [st]) = (G + ty + attr + S3 + c0 + f0 + st) mod 256).
+    { unfold sum8. rewrite !sum_list_app. cbn [sum_list fold_right]. f_equal. fold G S3. lia. }
+    rewrite S1.
+    set (ckh := (c0 - ((G + ty + attr + S3 + c0 + f0 + st) mod 256 - f0 - st) mod 256) mod 256).
+    assert (W3 : write3 ext = ext) by (unfold write3; replace (16777215 <=? ext) with false by lia; reflexivity).
+    rewrite app_nil_r.
+    apply validate_file_intro; unfold file_hs; cbn [f_size3 f_ext f_attr f_ckf f_state]; rewrite ?HL, ?W3; auto.
+    + rewrite !zlen_app. rewrite Hg, L3. reflexivity.
+    + rewrite !zlen_app. rewrite Hg, L3. change (zlen [ckh; ckf; ty; attr]) with 4. change (zlen [st]) with 1. lia.
+    + split; [lia|discriminate].
+    + assert (S2 : sum8 (g ++ [ckh; ckf; ty; attr] ++ s3 ++ [st]) = (G + ty + attr + S3 + ckh + ckf + st) mod 256).
+      { unfold sum8. rewrite !sum_list_app. cbn [sum_list fold_right]. f_equal. fold G S3. lia. }
+      rewrite S2. subst ckh. apply hdr_sum_fix.
+Qed.
+
+(* ---- F.2 sections: GenSecHeader ---- *)
+
+Lemma no_false_alarm_section h body :
+  zlen body + 28 < U32 ->
+  (forall g, s_gd h = Some g -> zlen (gd_guid g) = 16) ->
+  validate_sec (fst (gen_sec_header h body)) (snd (gen_sec_header h body)) = [].
+Proof.
+  intros Hb Hg. pose proof (zlen_nonneg body) as Nb. unfold U32 in *.
+  unfold gen_sec_header. cbv zeta. cbn [fst snd]. unfold U32.
+  set (hl0 := 4 + match s_gd h with Some _ => 20 | None => 0 end).
+  assert (H0 : hl0 = 4 \/ hl0 = 24) by (subst hl0; destruct (s_gd h); auto).
+  assert (E0 : (zlen body + hl0) mod 2 ^ 32 = zlen body + hl0) by (apply Z.mod_small; lia).
+  rewrite E0.
+  set (tsh := match match s_gd h with
+                    | Some g => Some (mkGd (gd_guid g)
+                        ((if 16777215 <=? zlen body + hl0 then hl0 + 4 else hl0) mod 65536)
+                        (gd_attrs g) (gd_kind g))
+                    | None => None end with
+              | Some g => gd_guid g ++ le_enc 2 (gd_dataoff g) ++ le_enc 2 (gd_attrs g)
+              | None => [] end).
+  assert (LT : zlen tsh = hl0 - 4).
+  { subst tsh hl0. destruct (s_gd h) as [g|] eqn:Eg; [|reflexivity].
+    cbn [gd_guid gd_dataoff gd_attrs]. rewrite !zlen_app, !le2. rewrite (Hg g eq_refl). lia. }
+  unfold validate_sec. cbn [s_size3 s_ext]. unfold_c09. unfold U32.
+  destruct (16777215 <=? zlen body + hl0) eqn:EB.
+  - assert (E1 : (zlen body + hl0 + 4) mod 2 ^ 32 = zlen body + hl0 + 4) by (apply Z.mod_small; lia).
+    rewrite E1. replace (16777215 <=? zlen body + hl0 + 4) with true by lia.
+    assert (W : write3 (zlen body + hl0 + 4) = 16777215)
+      by (unfold write3; replace (16777215 <=? zlen body + hl0 + 4) with true by lia; reflexivity).
+    rewrite W. cbn [Z.eqb Pos.eqb].
+    rewrite !zlen_app, zlen_le_enc3, le4, LT. change (zlen [s_type h]) with 1.
+    rewrite Z.mod_small by lia.
+    match goal with |- context [?a <? 8] => replace (a <? 8) with false by lia end.
+    match goal with |- context [negb (?a =? ?b)] => replace (a =? b) with true by lia end.
+    reflexivity.
+  - replace (16777215 <=? zlen body + hl0) with false by lia.
+    assert (W : write3 (zlen body + hl0) = zlen body + hl0)
+      by (unfold write3; replace (16777215 <=? zlen body + hl0) with false by lia; reflexivity).
+    rewrite W. replace (zlen body + hl0 =? 16777215) with false by lia.
+    rewrite Z.eqb_refl. cbn [negb].
+    rewrite !zlen_app, zlen_le_enc3, LT. change (zlen [s_type h]) with 1. change (zlen (@nil Z)) with 0.
+    rewrite Z.mod_small by lia.
+    match goal with |- context [negb (?a =? ?b)] => replace (a =? b) with true by lia end.
+    reflexivity.
+Qed.
+
+(* ---- F.3 volumes: the FirmwareVolume case of Assemble ---- *)
+
+Lemma splice_splice off d d' (b : bytes) : 0 <= off -> off + zlen d <= zlen b -> zlen d' = zlen d ->
+  splice off d' (splice off d b) = splice off d' b.
+Proof.
+  intros H0 H1 Hd. unfold splice.
+  assert (LA : zlen (zfirstn off b) = off) by (apply zlen_zfirstn; pose proof (zlen_nonneg d); lia).
+  f_equal.
+  - rewrite <- LA at 1. apply zfirstn_app_exact.
+  - f_equal. rewrite Hd.
+    replace (off + zlen d) with (zlen (zfirstn off b ++ d)) at 1 by (rewrite zlen_app; lia).
+    rewrite app_assoc. apply zskipn_app_exact.
+Qed.
+
+Lemma sub0_three (pre x post : bytes) H : zlen pre + zlen x <= H ->
+  sub 0 H (pre ++ x ++ post) = pre ++ x ++ zfirstn (H - zlen pre - zlen x) post.
+Proof.
+  intros HH. unfold sub. change (zskipn 0 (pre ++ x ++ post)) with (pre ++ x ++ post).
+  pose proof (zlen_nonneg x).
+  rewrite zfirstn_app_gt by lia. f_equal. rewrite zfirstn_app_gt by lia. reflexivity.
+Qed.
+
+Lemma known_ffs3 : known_fv_guid FFS3 = true.
+Proof. vm_compute. reflexivity. Qed.
+
+(* Go's Align never rounds down (no 64-bit wrap) *)
+Lemma ldiff_land_self y k : Z.ldiff (Z.land y k) y = 0.
+Proof.
+  apply Z.bits_inj'. intros n Hn. rewrite Z.ldiff_spec, Z.land_spec, Z.bits_0.
+  destruct (Z.testbit y n), (Z.testbit k n); reflexivity.
+Qed.
+
+Lemma ldiff_land_r y k : Z.ldiff y (Z.land y k) = Z.ldiff y k.
+Proof.
+  apply Z.bits_inj'. intros n Hn. rewrite !Z.ldiff_spec, Z.land_spec.
+  destruct (Z.testbit y n), (Z.testbit k n); reflexivity.
+Qed.
+
+Lemma sub_land y k : y - Z.land y k = Z.ldiff y k.
+Proof. rewrite (Z.sub_nocarry_ldiff y (Z.land y k) (ldiff_land_self y k)). apply ldiff_land_r. Qed.
+
+Lemma land_le_r y k : 0 <= k -> Z.land y k <= k.
+Proof.
+  intros Hk. rewrite Z.land_comm. pose proof (sub_land k y) as H.
+  assert (0 <= Z.ldiff k y) by (apply Z.ldiff_nonneg; auto). lia.
+Qed.
+
+Lemma align_go_ge v b : 0 <= v -> 0 < b -> v + b - 1 < 2 ^ 64 -> v <= align_go v b.
+Proof.
+  intros Hv Hb Hlt. unfold align_go.
+  rewrite (Z.mod_small (v + b - 1)) by lia.
+  rewrite (Z.mod_small (2 ^ 64 - b)) by lia.
+  set (y := v + b - 1). set (k := b - 1).
+  assert (Hk : 0 <= k < 2 ^ 64) by (subst k; lia).
+  assert (E1 : 2 ^ 64 - b = Z.ldiff (Z.ones 64) k).
+  { rewrite <- Z.sub_nocarry_ldiff.
+    - rewrite Z.ones_equiv. subst k. lia.
+    - apply Z.ldiff_ones_r_low; [lia|].
+      destruct (Z.eq_dec k 0) as [->|Hn]; [reflexivity|]. apply Z.log2_lt_pow2; lia. }
+  rewrite E1. rewrite Z.ldiff_land. rewrite Z.land_assoc.
+  rewrite (Z.land_ones y 64) by lia. rewrite (Z.mod_small y) by (subst y; lia).
+  rewrite <- Z.ldiff_land. rewrite <- sub_land.
+  pose proof (land_le_r y k ltac:(lia)). subst y k. lia.
+Qed.
+
+Lemma asm_vol_inv pol ffs3 h buf files h' nb :
+  asm_vol pol ffs3 h buf files = Ok (h', nb) -> files <> [] ->
+  exists len blocks b5 newlen,
+    h' = mkVol (v_zero h) (if ffs3 && bytes_eqb (v_guid h) FFS2 then FFS3 else v_guid h) len (v_sig h)
+               (v_attrs h) (v_hdrlen h) (v_cksum h) (v_exthdroff h) (v_reserved h) (v_rev h) blocks
+               (v_extname h) (v_extsize h) (v_dataoff h) (v_fvoffset h) (v_resizable h)
+               ((len - align8 newlen) mod U64) /\
+    nb = splice 50 (le_enc 2 ((0 - sum16 (sub 0 (v_hdrlen h) (splice 50 [0; 0] b5))) mod 65536))
+                (splice 50 [0; 0] b5) /\
+    60 <= zlen b5 /\ 0 <= v_hdrlen h <= zlen b5 /\ Z.even (v_hdrlen h) = true /\
+    zlen blocks = zlen (v_blocks h) /\ 0 <= newlen /\
+    zlen b5 = (if newlen <? len then len else newlen) /\
+    (v_resizable h = false -> newlen <= len) /\
+    (newlen <= len \/ exists c0 s0 rest, v_blocks h = (c0, s0) :: rest /\ s0 <> 0 /\
+                                        len = align_go newlen s0).
+Proof.
+  intros H Hne. destruct files as [|f0 fs]; [congruence|]. unfold asm_vol in H. cbv zeta in H.
+  destruct (v_length h <? zlen buf); [discriminate|].
+  destruct (v_blocks h) as [|[c0 s0] rest] eqn:EBl; [discriminate|].
+  destruct (v_dataoff h <? v_hdrlen h); [discriminate|].
+  destruct (slice 0 (v_dataoff h) buf) as [hdr|]; cbn [of_opt bind] in H; [|discriminate].
+  destruct (place_files pol _ hdr (v_dataoff h) (f0 :: fs)) as [b1| | |]; cbn [bind] in H; try discriminate.
+  destruct ((v_length h <? zlen b1) && negb (v_resizable h)) eqn:EG; [discriminate|].
+  set (newlen := zlen b1) in *.
+  assert (exists len blocks,
+    (if v_length h <? newlen
+     then if s0 =? 0 then Err E_BLOCK0
+          else Ok (align_go newlen s0, ((align_go newlen s0 / s0) mod U32, s0) :: rest)
+     else Ok (v_length h, (c0, s0) :: rest)) = Ok (len, blocks) /\
+    zlen blocks = zlen ((c0, s0) :: rest) /\ (v_resizable h = false -> newlen <= len) /\
+    (newlen <= len \/ (s0 <> 0 /\ len = align_go newlen s0))) as (len & blocks & Elb & Lb & Lr & Lg).
+  { destruct (v_length h <? newlen) eqn:EN.
+    - destruct (s0 =? 0) eqn:Es0; [cbn [bind] in H; discriminate|].
+      eexists _, _. split; [reflexivity|]. split; [rewrite !zlen_cons; reflexivity|]. split.
+      + intros Hr. rewrite Hr in EG. cbn in EG. discriminate.
+      + right. split; [lia|reflexivity].
+    - eexists _, _. split; [reflexivity|]. split; [reflexivity|]. split; [intros _; lia|left; lia]. }
+  rewrite Elb in H. cbn [bind] in H.
+  set (b2 := if newlen <? len then b1 ++ zrepeat pol (len - newlen) else b1) in *.
+  destruct (zlen b2 <? 40) eqn:E40; [discriminate|].
+  set (b3 := splice 32 (le_enc 8 len) b2) in *.
+  set (b4 := if ffs3 && bytes_eqb (v_guid h) FFS2 then splice 16 FFS3 b3 else b3) in *.
+  destruct blocks as [|[c s] brest]; [discriminate|].
+  destruct (zlen b4 <? 60) eqn:E60; [discriminate|].
+  set (b5 := splice 56 (le_enc 4 c) b4) in *.
+  destruct (slice 0 (v_hdrlen h) (splice 50 [0; 0] b5)) as [hb|] eqn:ESl; [|discriminate].
+  destruct (negb (Z.even (v_hdrlen h))) eqn:EE; [discriminate|].
+  apply Ok_inj in H. apply pair_equal_spec in H. destruct H as [<- <-].
+  apply slice_some in ESl. destruct ESl as (S1 & S2 & ->). rewrite Z.sub_0_r.
+  assert (L3 : zlen b3 = zlen b2) by (apply zlen_splice; rewrite ?le8; lia).
+  assert (L4 : zlen b4 = zlen b2).
+  { subst b4. destruct (ffs3 && bytes_eqb (v_guid h) FFS2); [|exact L3].
+    rewrite zlen_splice; [exact L3| lia | change (zlen FFS3) with 16; lia]. }
+  assert (L5 : zlen b5 = zlen b2) by (subst b5; rewrite zlen_splice; rewrite ?le4; lia).
+  assert (L6 : zlen (splice 50 [0; 0] b5) = zlen b5) by (apply zlen_splice; change (zlen [0; 0]) with 2; lia).
+  exists len, ((c, s) :: brest), b5, newlen.
+  split; [reflexivity|]. split; [reflexivity|]. split; [lia|]. split; [lia|].
+  split; [destruct (Z.even (v_hdrlen h)); [reflexivity|discriminate]|].
+  split; [exact Lb|]. split; [apply zlen_nonneg|]. split; [|split; [exact Lr|destruct Lg as [?|[? ?]]; [left; assumption|right; exists c0, s0, rest; auto]]].
+  rewrite L5. subst b2. destruct (newlen <? len) eqn:EL; [|reflexivity].
+  rewrite zlen_app. unfold zrepeat.
+  assert (R : forall n, zlen (repeatz pol n) = Z.of_nat n).
+  { induction n as [|n IHn]; [reflexivity|]. cbn [repeatz]. rewrite zlen_cons, IHn. lia. }
+  rewrite R. fold newlen. lia.
+Qed.
+
+(* C09_no_false_alarm, volumes *)
+Lemma asm_vol_clean pol ffs3 h buf files h' nb :
+  asm_vol pol ffs3 h buf files = Ok (h', nb) -> files <> [] ->
+  v_hdrlen h = 56 + 8 * (zlen (v_blocks h) + 1) -> v_rev h = 2 -> v_sig h = c09_fv_signature ->
+  known_fv_guid (v_guid h) = true ->
+  zlen nb = v_length h' ->
+  validate_vol h' nb = Ok [].
+Proof.
+  intros HA Hne HH HR HSg HG HLen.
+  destruct (asm_vol_inv _ _ _ _ _ _ _ HA Hne) as (len & blocks & b5 & newlen & -> & -> & L60 & LH & EV & LB & _ & L5 & _ & _).
+  cbn [v_length] in HLen.
+  pose proof (zlen_nonneg (v_blocks h)) as Nb.
+  set (b6 := splice 50 [0; 0] b5) in *.
+  assert (L6 : zlen b6 = zlen b5) by (apply zlen_splice; change (zlen [0; 0]) with 2; lia).
+  set (sum := (0 - sum16 (sub 0 (v_hdrlen h) b6)) mod 65536) in *.
+  assert (L7 : zlen (splice 50 (le_enc 2 sum) b6) = zlen b5) by (rewrite zlen_splice; rewrite ?le2; lia).
+  unfold validate_vol. unfold_c09.
+  cbn [v_hdrlen v_blocks v_guid v_rev v_sig v_length].
+  rewrite L7 in *.
+  replace (zlen b5 <? 64) with false by lia.
+  replace (v_hdrlen h <? 64) with false by lia.
+  replace (zlen b5 <? v_hdrlen h) with false by lia.
+  rewrite slice_ok by lia. cbn [of_opt bind]. rewrite Z.sub_0_r.
+  rewrite LB. replace (v_hdrlen h =? 56 + 8 * (zlen (v_blocks h) + 1)) with true by lia.
+  assert (G : known_fv_guid (if ffs3 && bytes_eqb (v_guid h) FFS2 then FFS3 else v_guid h) = true)
+    by (destruct (ffs3 && bytes_eqb (v_guid h) FFS2); [apply known_ffs3|exact HG]).
+  rewrite G, HR, HSg, !Z.eqb_refl. rewrite HLen, Z.eqb_refl.
+  (* the checksum *)
+  assert (CK : sum16 (sub 0 (v_hdrlen h) (splice 50 (le_enc 2 sum) b6)) = 0).
+  { subst b6. rewrite splice_splice by (try reflexivity; change (zlen [0; 0]) with 2; lia).
+    subst sum. unfold splice. change (zlen [0; 0]) with 2. rewrite le2.
+    set (pre := zfirstn 50 b5). set (post := zskipn (50 + 2) b5).
+    assert (LP : zlen pre = 50) by (apply zlen_zfirstn; lia).
+    rewrite !sub0_three by (rewrite LP, ?le2; change (zlen [0; 0]) with 2; lia).
+    rewrite le2. change (zlen [0; 0]) with 2.
+    apply sum16_fix. rewrite LP. reflexivity. }
+  rewrite CK.
+  assert (LS : zlen (sub 0 (v_hdrlen h) (splice 50 (le_enc 2 sum) b6)) = v_hdrlen h)
+    by (apply zlen_sub0; lia).
+  rewrite LS, EV. reflexivity.
+Qed.
+
+Lemma asm_vol_len_fixed pol ffs3 h buf files h' nb :
+  asm_vol pol ffs3 h buf files = Ok (h', nb) -> files <> [] -> v_resizable h = false ->
+  zlen nb = v_length h'.
+Proof.
+  intros HA Hne Hr.
+  destruct (asm_vol_inv _ _ _ _ _ _ _ HA Hne) as (len & blocks & b5 & newlen & -> & -> & L60 & LH & EV & LB & _ & L5 & Lr & _).
+  cbn [v_length]. specialize (Lr Hr).
+  set (b6 := splice 50 [0; 0] b5) in *.
+  assert (L6 : zlen b6 = zlen b5) by (apply zlen_splice; change (zlen [0; 0]) with 2; lia).
+  rewrite zlen_splice by (rewrite ?le2; lia). rewrite L6, L5.
+  destruct (newlen <? len) eqn:E; lia.
+Qed.
+
+Lemma no_false_alarm_volume pol ffs3 h buf files h' nb :
+  asm_vol pol ffs3 h buf files = Ok (h', nb) -> files <> [] -> v_resizable h = false ->
+  v_hdrlen h = 56 + 8 * (zlen (v_blocks h) + 1) -> v_rev h = 2 -> v_sig h = c09_fv_signature ->
+  known_fv_guid (v_guid h) = true ->
+  validate_vol h' nb = Ok [].
+Proof.
+  intros HA Hne Hr HH HR HSg HG. eapply asm_vol_clean; eauto. eapply asm_vol_len_fixed; eauto.
+Qed.
+
+(* resizable (nested) volumes may grow to the next multiple of the block size *)
+Lemma asm_vol_len_any pol ffs3 h buf files h' nb :
+  asm_vol pol ffs3 h buf files = Ok (h', nb) -> files <> [] ->
+  (forall c s rest, v_blocks h = (c, s) :: rest -> 0 < s < 2 ^ 32) -> zlen nb < 2 ^ 63 ->
+  zlen nb = v_length h'.
+Proof.
+  intros HA Hne Hs Hsmall.
+  destruct (asm_vol_inv _ _ _ _ _ _ _ HA Hne) as (len & blocks & b5 & newlen & -> & -> & L60 & LH & EV & LB & N0 & L5 & _ & Lg).
+  cbn [v_length].
+  set (b6 := splice 50 [0; 0] b5) in *.
+  assert (L6 : zlen b6 = zlen b5) by (apply zlen_splice; change (zlen [0; 0]) with 2; lia).
+  rewrite zlen_splice in Hsmall |- * by (rewrite ?le2; lia). rewrite L6, L5 in *.
+  destruct Lg as [Hle|(c0 & s0 & rest & EB & Hs0 & ->)].
+  - destruct (newlen <? len) eqn:E; lia.
+  - specialize (Hs _ _ _ EB).
+    assert (newlen < 2 ^ 63) by (destruct (newlen <? align_go newlen s0) eqn:E; lia).
+    pose proof (align_go_ge newlen s0 ltac:(lia) ltac:(lia) ltac:(lia)).
+    destruct (newlen <? align_go newlen s0) eqn:E; lia.
+Qed.
+
+Lemma no_false_alarm_volume_any pol ffs3 h buf files h' nb :
+  asm_vol pol ffs3 h buf files = Ok (h', nb) -> files <> [] ->
+  (forall c s rest, v_blocks h = (c, s) :: rest -> 0 < s < 2 ^ 32) -> zlen nb < 2 ^ 63 ->
+  v_hdrlen h = 56 + 8 * (zlen (v_blocks h) + 1) -> v_rev h = 2 -> v_sig h = c09_fv_signature ->
+  known_fv_guid (v_guid h) = true ->
+  validate_vol h' nb = Ok [].
+Proof.
+  intros HA Hne Hs Hsm HH HR HSg HG. eapply asm_vol_clean; eauto. eapply asm_vol_len_any; eauto.
+Qed.
+
+(* ---- F.4 the same, phrased for what Assemble.Visit does to a node ---- *)
+
+Lemma file_asm_clean h buf kids' st n st' :
+  file_asm h buf kids' st = Ok (n, st') -> (kids' <> [] \/ f_nvar h <> None) ->
+  zlen (f_guid h) = 16 ->
+  exists h' nb, n = NFile h' nb kids' /\ validate_file h' nb = Ok [].
+Proof.
+  intros HA Hre Hg. unfold file_asm in HA. destruct st as [pol ffs3].
+  set (data := match f_nvar h with Some nb => nb | None => join4 [] (map node_buf kids') end) in *.
+  assert (HA' : (let '(ext, attr) := set_size (f_attr h) (24 + zlen data) true in
+                 let '(h', nb) := checksum_and_assemble h ext attr data in
+                 Ok (NFile h' nb kids', (pol, ffs3 || (16777215 <? ext)))) = Ok (n, st')).
+  { destruct kids' as [|k0 kr]; [|exact HA]. destruct (f_nvar h) eqn:En; [exact HA|].
+    destruct Hre as [Hre|Hre]; congruence. }
+  clear HA. destruct (set_size (f_attr h) (24 + zlen data) true) as [ext attr] eqn:Ess.
+  pose proof (no_false_alarm_file h data ext attr Ess Hg) as HV.
+  destruct (checksum_and_assemble h ext attr data) as [h' nb]. cbn [fst snd] in HV.
+  apply Ok_inj in HA'. apply pair_equal_spec in HA'. destruct HA' as [<- _]. eauto.
+Qed.
+
+Lemma vol_asm_clean h buf kids' st n st' :
+  vol_asm h buf kids' st = Ok (n, st') -> kids' <> [] ->
+  (forall c s rest, v_blocks h = (c, s) :: rest -> 0 < s < 2 ^ 32) -> zlen (node_buf n) < 2 ^ 63 ->
+  v_hdrlen h = 56 + 8 * (zlen (v_blocks h) + 1) -> v_rev h = 2 -> v_sig h = c09_fv_signature ->
+  known_fv_guid (v_guid h) = true ->
+  exists h' nb, n = NVol h' nb kids' /\ validate_vol h' nb = Ok [].
+Proof.
+  intros HA Hne Hs Hsm HH HR HSg HG. unfold vol_asm in HA. destruct st as [pol ffs3].
+  destruct (asm_vol pol ffs3 h buf kids') as [[h' nb]| | |] eqn:EA; cbn [bind] in HA; try discriminate.
+  apply Ok_inj in HA. apply pair_equal_spec in HA. destruct HA as [<- _]. cbn [node_buf] in Hsm.
+  exists h', nb. split; [reflexivity|]. eapply no_false_alarm_volume_any; eauto.
+Qed.
+
+(* ================= Part G: witnesses ================= *)
+
+Definition dec0 (_ : Z) (_ : bytes) : option bytes := None.
+Definition u2s0 (b : bytes) : bytes := b.
+Definition nvar0 (_ : bytes) : option bytes := None.
+
+(* a 72-byte volume header (one block entry, revision 2, correct checksum) *)
+Definition ex_fv_header (guid : bytes) (len attrs : Z) : bytes :=
+  let h0 := zrepeat 0 16 ++ guid ++ le_enc 8 len ++ [95; 70; 86; 72] ++ le_enc 4 attrs ++
+            le_enc 2 72 ++ [0; 0] ++ [0; 0] ++ [0; 2] ++ le_enc 4 1 ++ le_enc 4 len ++ zrepeat 0 8 in
+  splice 50 (le_enc 2 ((0 - sum16 h0) mod 65536)) h0.
+
+(* a file built by the model's own SetSize + ChecksumAndAssemble *)
+Definition ex_file (g0 ftype attr0 : Z) (data : bytes) : bytes :=
+  let h := mkFile (g0 :: zrepeat 0 15) 0 0 ftype attr0 0 248 0 24 None in
+  let '(ext, attr) := set_size attr0 (24 + zlen data) true in
+  snd (checksum_and_assemble h ext attr data).
+
+Definition pad8 (pol : Z) (b : bytes) : bytes := b ++ zrepeat pol (align8 (zlen b) - zlen b).
+
+Definition vol_default : volhdr := mkVol [] [] 0 0 0 0 0 0 0 0 [] [] 0 0 0 false 0.
+Definition res_node (r : outcome (node * Z)) : node := match r with Ok (n, _) => n | _ => NPad 0 [] end.
+Definition node_vh (n : node) : volhdr := match n with NVol h _ _ => h | _ => vol_default end.
+Definition node_kids (n : node) : list node :=
+  match n with NVol _ _ k | NFile _ _ k | NSec _ _ k => k | NPad _ _ => [] end.
+
+(* G.1 the free-space marker: a raw file of 0xFFFF bytes whose body starts with eight FF bytes,
+   followed by a second file; byte 22 of the first header (the top size byte, 00) becomes FF *)
+Definition ex_big_files : bytes :=
+  pad8 255 (ex_file 17 1 0 (zrepeat 255 8 ++ zrepeat 7 (65535 - 32))) ++
+  pad8 255 (ex_file 34 1 64 [1; 2; 3; 4; 5]) ++ zrepeat 255 24.
+Definition ex_big : bytes := ex_fv_header FFS2 (72 + zlen ex_big_files) 327423 ++ ex_big_files.
+Definition ex_big' : bytes := splice 94 [255] ex_big.
+Definition ex_big_node := res_node (parse_fv dec0 u2s0 nvar0 3 240 ex_big 0 false).
+Definition ex_big_node' := res_node (parse_fv dec0 u2s0 nvar0 3 240 ex_big' 0 false).
+
+(* all computations on the 64 KiB witness return small values (no big term is ever reified) *)
+Lemma ex_big_change : single_change ex_big (72 + 22) ex_big'.
+Proof.
+  exists (zfirstn 94 ex_big), 0, 255, (zskipn 95 ex_big).
+  split; [apply bytes_eqb_eq; vm_compute; reflexivity|].
+  split; [apply bytes_eqb_eq; vm_compute; reflexivity|].
+  split; [vm_compute; reflexivity|]. repeat split; lia.
+Qed.
+
+Definition res_pol (r : outcome (node * Z)) : Z := match r with Ok (_, p) => p | _ => -1 end.
+Definition is_vol (n : node) : bool := match n with NVol _ _ _ => true | _ => false end.
+
+Lemma ex_big_facts :
+  let r := parse_fv dec0 u2s0 nvar0 3 240 ex_big 0 false in
+  is_ok r = true /\ is_vol (res_node r) = true /\ res_pol r = 255 /\
+  validate (res_node r) = Ok [] /\ length (node_kids (res_node r)) = 2%nat /\
+  v_dataoff (node_vh (res_node r)) = 72 /\ v_length (node_vh (res_node r)) = 65664 /\
+  match file_at 72 (node_kids (res_node r)) 0 with
+  | Some (NFile fh _ _, o) => (o =? 72) && negb (attr_large (f_attr fh))
+  | _ => false end = true.
+Proof. cbv zeta. repeat split; vm_compute; reflexivity. Qed.
+
+Lemma ex_big_facts' :
+  let r := parse_fv dec0 u2s0 nvar0 3 240 ex_big' 0 false in
+  is_ok r = true /\ is_vol (res_node r) = true /\ res_pol r = 255 /\
+  validate (res_node r) = Ok [] /\ length (node_kids (res_node r)) = 0%nat.
+Proof. cbv zeta. repeat split; vm_compute; reflexivity. Qed.
+
+(* every hypothesis of the file-header theorem except the side condition holds, the altered image
+   parses (both files have vanished) and validate reports nothing *)
+Lemma free_marker_witness :
+  exists b b' h buf kids fh fb fk,
+    parse_fv dec0 u2s0 nvar0 3 240 b 0 false = Ok (NVol h buf kids, 255) /\
+    validate (NVol h buf kids) = Ok [] /\ bytes_ok b = true /\ fv_hdr_extent b <= v_dataoff h /\
+    length kids = 2%nat /\
+    file_at (v_dataoff h) kids 0 = Some (NFile fh fb fk, 72) /\
+    prot_hdr (attr_large (f_attr fh)) 22 /\
+    single_change b (72 + 22) b' /\
+    becomes_free_marker (sub 72 (v_length h - 72) b') /\
+    exists h' buf', parse_fv dec0 u2s0 nvar0 3 240 b' 0 false = Ok (NVol h' buf' [], 255) /\
+                    validate (NVol h' buf' []) = Ok [].
+Proof.
+  pose proof ex_big_facts as F. pose proof ex_big_facts' as F'. cbv zeta in F, F'.
+  destruct (parse_fv dec0 u2s0 nvar0 3 240 ex_big 0 false) as [[n p]| | |] eqn:E;
+    destruct F as (F1 & F2 & F3 & F4 & F5 & F6 & F7 & F8); try discriminate.
+  destruct n as [| |h buf kids|]; try discriminate.
+  cbn [res_node res_pol node_vh node_kids] in *. subst p.
+  destruct (parse_fv dec0 u2s0 nvar0 3 240 ex_big' 0 false) as [[n' p']| | |] eqn:E';
+    destruct F' as (G1 & G2 & G3 & G4 & G5); try discriminate.
+  destruct n' as [| |h' buf' kids'|]; try discriminate.
+  cbn [res_node res_pol node_vh node_kids] in *. subst p'.
+  destruct kids' as [|? ?]; [|discriminate].
+  rewrite F6 in *. rewrite F7.
+  destruct (file_at 72 kids 0) as [[f o]|] eqn:EA; [|discriminate].
+  destruct f as [|fh fb fk| |]; try discriminate.
+  apply andb_true_iff in F8 as [Fo Fl]. apply Z.eqb_eq in Fo. subst o.
+  exists ex_big, ex_big', h, buf, kids, fh, fb, fk.
+  split; [reflexivity|]. split; [exact F4|]. split; [vm_compute; reflexivity|].
+  split; [vm_compute; discriminate|]. split; [exact F5|]. split; [reflexivity|].
+  split; [right; left; lia|]. split; [exact ex_big_change|].
+  split.
+  - split; [vm_compute; reflexivity|]. split; [vm_compute; discriminate|]. vm_compute; reflexivity.
+  - exists h', buf'. split; [reflexivity|exact G4].
+Qed.
+
+(* G.2 the body-checksum check of the pinned code (body bytes alone must sum to zero) *)
+
+(* it flags what ChecksumAndAssemble builds ... *)
+Lemma old_body_check_false_alarm :
+  exists h data ext attr,
+    set_size (f_attr h) (24 + zlen data) true = (ext, attr) /\ zlen (f_guid h) = 16 /\
+    validate_file_old (fst (checksum_and_assemble h ext attr data))
+                      (snd (checksum_and_assemble h ext attr data)) = Ok [V_F_BODYSUM].
+Proof.
+  exists (mkFile (zrepeat 9 16) 0 0 2 64 0 248 0 24 None), [1; 2; 3], 27, 64.
+  repeat split; vm_compute; reflexivity.
+Qed.
+
+(* ... and does not look at the body-checksum byte of a file that has the checksum attribute *)
+Definition ex_sum_file : bytes := zrepeat 9 16 ++ [19; 0; 1; 64] ++ [27; 0; 0] ++ [248] ++ [1; 255; 0].
+Definition ex_sum_file' : bytes := splice 17 [77] ex_sum_file.
+
+Lemma old_bodysum_miss :
+  exists fb fb' h fbuf h' fbuf',
+    file_body nvar0 (parse_section dec0 u2s0 nvar0 2) 255 fb = Ok (Some (NFile h fbuf []), 255) /\
+    validate_file_old h fbuf = Ok [] /\ attr_checksum (f_attr h) = true /\
+    bytes_ok fb = true /\ single_change fb 17 fb' /\
+    file_body nvar0 (parse_section dec0 u2s0 nvar0 2) 255 fb' = Ok (Some (NFile h' fbuf' []), 255) /\
+    validate_file_old h' fbuf' = Ok [].
+Proof.
+  exists ex_sum_file, ex_sum_file'.
+  exists (mkFile (zrepeat 9 16) 19 0 1 64 27 248 27 24 None), ex_sum_file.
+  exists (mkFile (zrepeat 9 16) 19 77 1 64 27 248 27 24 None), ex_sum_file'.
+  split; [vm_compute; reflexivity|]. split; [vm_compute; reflexivity|].
+  split; [vm_compute; reflexivity|]. split; [vm_compute; reflexivity|].
+  split.
+  - exists (zfirstn 17 ex_sum_file), 0, 77, (zskipn 18 ex_sum_file).
+    split; [vm_compute; reflexivity|]. split; [vm_compute; reflexivity|].
+    split; [vm_compute; reflexivity|]. repeat split; lia.
+  - split; vm_compute; reflexivity.
+Qed.
